@@ -28,10 +28,13 @@
                     and the message loop (`StreamExt::next`) is reached from the `Some(started_event)` edge
                     only through `notify`.  (R-ORDER)
 
+Thorough tier repeats everything on K3 (tokio backend: tokio::sync::RwLock guards), keys prefixed `K3:`.
+
 Dropped / not decided: whether an arbitrary third-party future awaited under the tree guard can run
 interface code (only resolved calls and the DispatchResult future are classified; a future of unknown origin
 awaited under the tree guard is reported as a violation, fail closed); fairness of async-lock.
 """
+import re
 from .. import mir, awaits as aw
 
 NODE = "zbus::object_server::node::Node"
@@ -53,7 +56,10 @@ META = {
 
 # ------------------------------------------------------------------------------------------- helpers
 def is_tree_guard(ty):
-    return "rwlock::RwLock" in ty and "Guard<" in ty and (NODE + ">") in ty and "dyn " not in ty
+    # async_lock::rwlock::RwLockReadGuard<'_, Node> (K1) / tokio::sync::rwlock::read_guard::RwLockReadGuard<'_, Node> (K3)
+    if ty.startswith("impl ") or "Future<" in ty:
+        return False
+    return re.search(r"RwLock\w*Guard<[^<>]*" + re.escape(NODE) + ">", ty) is not None
 
 
 def rwlock_target(c):
@@ -205,7 +211,7 @@ def guard_rules(ctx, f, tag=""):
                     what = "RwLock<dyn Interface>::" + a.call.callee.rsplit("::", 1)[-1]
             else:
                 what = "DispatchResult::Async future" if "code" in eff else "future of unknown origin"
-            gname = ",".join(sorted({"%s: %s" % (h[1], h[0].split("::")[-2] if "::" in h[0] else h[0]) for h in held}))
+            gname = ",".join(sorted({"%s: %s" % (h[1], (re.search(r"RwLock\w*Guard", h[0]) or [h[0]])[0]) for h in held}))
             key = "%s%s:await:%s" % (tag, b.root, what)
             ctx.ob("NO-TREE-GUARD", key, "code" not in eff and "unknown" not in eff,
                    ("tree guard (%s) is saved across an await of %s, which %s" % (
